@@ -7,7 +7,9 @@ NAME_ALPHA = ["a", "b", "name", "x1", " ", ";", "=", "%", "&", "'", "é", "中",
               # not line breaks of the multipart framing (only CR and LF are): ordinary characters of a name
               "\x0b", "\x0c", "\x1c", "\x1e", "\u0085", "\u2028", "\u2029",
               # path-like names (a directory upload sends relative paths as file names): just characters
-              "/", "dir/sub/", "..", ":"]
+              "/", "dir/sub/", "..", ":",
+              # valid UTF-8 that is not NFC-normalised (a macOS file name, the Kelvin / Ohm signs): other code points, not other text
+              "e\u0301", "\u212a", "\u2126"]
 TEXT_UNI = ["é", "中", "€", "\U0001f600", " ", "\x00", "\x7f", " "]
 
 
@@ -119,6 +121,8 @@ def gen_form(t, max_parts=4, file_bias=2, big_file=None, allow_pre_epi=True):
         if i == 0 and t.draw(15) == 0:
             # the conventional hint field of RFC 7578 4.6: here an ordinary text field like any other
             p = {"kind": "field", "name": "_charset_", "content": t.choice([b"iso-8859-1", b"windows-1252", b"utf-16", b"shift_jis"]), "extra": None}
+        if p["kind"] == "file" and t.draw(12) == 0:
+            p["param_case"] = t.choice([("Name", "FileName"), ("NAME", "FILENAME"), ("name", "Filename")])
         if t.draw(10) == 0:
             p["pad"] = t.choice([b" ", b"  ", b"\t", b" \t "])       # linear white space after the delimiter (a gateway's padding)
         parts.append(p)
@@ -141,7 +145,8 @@ def _q(s):
 def part_headers(p):
     """Header lines of a part as (name, value) list in emission order."""
     if p["kind"] == "file":
-        hs = [("Content-Disposition", 'form-data; name="%s"; filename="%s"' % (_q(p["name"]), _q(p["filename"])))]
+        pn, pf = p.get("param_case", ("name", "filename"))          # parameter names are case-insensitive
+        hs = [("Content-Disposition", 'form-data; %s="%s"; %s="%s"' % (pn, _q(p["name"]), pf, _q(p["filename"])))]
         if p.get("ctype"):
             hs.append(("Content-Type", p["ctype"]))
     else:
